@@ -1,7 +1,7 @@
 (* C07 - RDF terms obey identity laws: equality, hashing, ordering, pickling, n3 text.
    Property theorems only; proofs are in Term/Proofs.v.  The model (Term/Model.v) is tied to
    rdflib/term.py and rdflib/util.py by harness/c07.py. *)
-From RV Require Import Term.Model Term.Proofs.
+From RV Require Import Term.Model Term.Proofs Term.Text.
 Local Open Scope N_scope.
 
 (* == is an equivalence relation, and never holds between terms of different kinds *)
@@ -64,19 +64,11 @@ Theorem C07_sort_no_error : forall a b, modelled a = true -> modelled b = true -
 Proof. exact lt_defined. Qed.
 Print Assumptions C07_sort_no_error.
 
-(* pickle / copy / deepcopy: every well-formed term comes back as itself (the code as repaired for finding F7a:
-   __reduce__ passes normalize=False) *)
+(* pickle / copy / deepcopy: every well-formed term comes back as itself (__reduce__ passes normalize=False since
+   the repair of finding F7a) *)
 Theorem C07_pickle : forall o t, wf_term t = true -> same_as t (unpickle o t) = true.
 Proof. exact pickle_same. Qed.
 Print Assumptions C07_pickle.
-
-(* the text forms still rebuild through the normalising constructor (finding F7a, read-back part): a literal built
-   with normalize=False survives pickling but not from_n3(n3()) *)
-Theorem C07_n3_from_n3_nonnormal_refuted : exists t, wf_term t = true /\ tkf {| t_term := t; t_orc := [] |} = 1 /\
-  same_as t (match n3 t with Some s => from_n3 [] s | None => WRaise end) = false
-  /\ same_as t (unpickle [] t) = true.
-Proof. exact from_n3_nonnormal_refuted. Qed.
-Print Assumptions C07_n3_from_n3_nonnormal_refuted.
 
 (* the tie for the suite "laws": the checker evaluated on the implementation's answers accepts the model's *)
 Theorem C07_spec_ok_model : forall c, kf c = 0 -> spec_ok c (model_obs c) = true.
@@ -121,42 +113,77 @@ Theorem C07_family_order_strict :
 Proof. exact (conj mlt_irrefl (conj mlt_asym mlt_trans)). Qed.
 Print Assumptions C07_family_order_strict.
 
-(* the tie for the suite "text" (n3, from_n3, pickle of one term).  PARTIAL: the from_n3 round trip is proved
-   for IRIs (Latin-1), blank nodes, variables, and literals whose lexical form needs no escape (no LF CR quote backslash,
-   Latin-1) and is not an INF/NaN respelling; the remaining literals are covered by running only.
-   Pickling is proved for every well-formed term. *)
-Theorem C07_text_spec_ok_model_partial : forall c,
-  wf_term (t_term c) = true -> tkf c = 0 -> text_proved (t_term c) = true ->
-  tspec_ok c (tmodel_obs c) = true.
-Proof. exact tspec_ok_model_partial. Qed.
-Print Assumptions C07_text_spec_ok_model_partial.
+(* n3 text read back by from_n3, for EVERY well-formed term and every string (all escapes, both quoting forms, all of
+   Unicode): an IRI, blank node or variable comes back as itself, a literal as the literal the default constructor
+   builds from the lexical form shown in the text, its language and its datatype.  (respell_ok: a literal whose
+   INF/NaN spelling n3() changes has a lexical form without LF CR quote backslash.) *)
+Theorem C07_n3_from_n3 : forall o t s, wf_term t = true -> respell_ok t -> n3 t = Some s ->
+  from_n3 o s =
+  match t with
+  | Lit lex dt lang => mk_literal o true (n3_lex lex dt) lang dt
+  | _ => WTerm t
+  end.
+Proof. exact from_n3_n3_wf. Qed.
+Print Assumptions C07_n3_from_n3.
+
+(* ... hence a literal the constructor leaves alone reads back as the same term *)
+Theorem C07_n3_from_n3_same : forall o lex dt lang s,
+  wf_term (Lit lex dt lang) = true -> respelled lex dt = false -> ctor_lex o lex dt = Some lex ->
+  n3 (Lit lex dt lang) = Some s -> same_as (Lit lex dt lang) (from_n3 o s) = true.
+Proof. exact from_n3_n3_fixed. Qed.
+Print Assumptions C07_n3_from_n3_same.
+
+(* the two halves of that proof: what _quote_encode writes between the quotes is the rendering of a list of tokens
+   (escaped backslash, escaped quote, escaped CR, raw character) whose values are the lexical form; and the passes
+   of from_n3 (both regular-expression substitutions, raw-unicode-escape, unicode-escape) map the rendering of any
+   token list to its values *)
+Theorem C07_quote_encode_tokens : forall s, cp_ok s = true ->
+  exists ts, Forall tok_ok ts /\ map value ts = s /\
+    ((mem 10 s = false /\ quote_encode s = q1 ++ renders ts ++ q1
+      /\ match renders ts with 34 :: _ => False | _ => True end)
+     \/ (mem 10 s = true /\ quote_encode s = q3 ++ renders ts ++ q3)).
+Proof. exact quote_encode_tokens. Qed.
+Print Assumptions C07_quote_encode_tokens.
+
+Theorem C07_decode_tokens : forall ts, Forall tok_ok ts ->
+  codec (fix_bs_x false (unesc_quote 0 (renders ts))) = Some (map value ts).
+Proof. exact decode_tokens. Qed.
+Print Assumptions C07_decode_tokens.
+
+(* the tie for the suite "text" (n3, from_n3, pickle of one term), at full strength *)
+Theorem C07_text_spec_ok_model : forall c, twf c = true -> tspec_ok c (tmodel_obs c) = true.
+Proof. exact tspec_ok_model. Qed.
+Print Assumptions C07_text_spec_ok_model.
 
 Theorem C07_text_spec_ok_reads : forall c o, tspec_ok c o = true ->
   same_as (t_term c) (t_pickle o) = true
-  /\ (forall s, t_n3 o = Some s -> same_as (t_term c) (t_from o) = true)
+  /\ (forall s, t_n3 o = Some s -> same_wres (normal_form (t_orc c) (t_term c)) (t_from o) = true)
   /\ (t_n3 o = None -> exists s, t_term c = IRI s /\ valid_uri s = false)
   /\ ~ In (Some false) (t_flags o).
 Proof. exact tspec_ok_reads. Qed.
 Print Assumptions C07_text_spec_ok_reads.
 
-(* the former findings F7b (backslash x), F7d (variables) and F7e (backslash quote in a multi-line literal) are
-   repaired in the code and in the model: *)
-Theorem C07_n3_from_n3_repaired_examples :
-  from_n3_n3 [] (Lit [92; 120; 52; 49] None None) = WTerm (Lit [92; 120; 52; 49] None None)
-  /\ from_n3_n3 [] (Lit [92; 92; 120] None None) = WTerm (Lit [92; 92; 120] None None)
-  /\ from_n3_n3 [] (Var [120]) = WTerm (Var [120]).
-Proof. exact from_n3_fixed_examples. Qed.
-Print Assumptions C07_n3_from_n3_repaired_examples.
+(* the code as it was before the "fix:" commits did not have these properties (findings F7a, F7b, F7e) *)
+Theorem C07_prefix_pickle_refuted :
+  mk_literal [] true [48; 49] None (Some xsd_integer) = WTerm (Lit [49] (Some xsd_integer) None).
+Proof. exact prefix_pickle_refuted. Qed.
+Print Assumptions C07_prefix_pickle_refuted.
 
-Theorem C07_n3_from_n3_bs_quote_repaired_examples :
-  from_n3_n3 [] (Lit [10; 92; 34] None None) = WTerm (Lit [10; 92; 34] None None)
-  /\ from_n3_n3 [] (Lit [92; 34; 10] None None) = WTerm (Lit [92; 34; 10] None None)
-  /\ from_n3_n3 [] (Lit [10; 34; 34; 34; 34] None None) = WTerm (Lit [10; 34; 34; 34; 34] None None).
-Proof. exact from_n3_bs_quote_fixed. Qed.
-Print Assumptions C07_n3_from_n3_bs_quote_repaired_examples.
+Theorem C07_prefix_bs_x_refuted :
+  quote_encode [92; 120; 52; 49] = [34; 92; 92; 120; 52; 49; 34]
+  /\ decode_prefix [92; 92; 120; 52; 49] = Some [92; 65]
+  /\ decode_prefix [92; 92; 120] = None.
+Proof. exact prefix_bs_x_refuted. Qed.
+Print Assumptions C07_prefix_bs_x_refuted.
+
+Theorem C07_prefix_bs_quote_refuted :
+  quote_encode3_prefix [10; 92; 34] = [10; 92; 92; 34]
+  /\ decode_prefix [10; 92; 92; 34] = Some [10; 34].
+Proof. exact prefix_bs_quote_refuted. Qed.
+Print Assumptions C07_prefix_bs_quote_refuted.
 
 (* non-vacuity: a case with all four kinds, a tag differing in case and an integer literal passes the
-   checker, and a non-trivial text case is inside the proved fragment *)
+   checker, and a text case with LF, backslash-quote, CR, an astral character and backslash-x round-trips *)
 Example C07_nonvacuous :
   let c := {| c_terms := [BNd [97]; Var [97]; IRI [97]; Lit [97] None (Some [101; 110]); Lit [97] None (Some [102; 114]);
                           Lit [49] (Some xsd_integer) None];
@@ -165,6 +192,6 @@ Example C07_nonvacuous :
   /\ nthd (o_lt (model_obs c)) 3 4 None = Some CLt
   /\ term_eqb (Lit [97] None (Some [101; 110])) (Lit [97] None (Some [69; 78])) = true
   /\ nthd (o_lt (model_obs c)) 0 1 None = Some CLt
-  /\ (let t := {| t_term := Lit [97; 39; 233] (Some [117; 114; 110; 58; 100]) None; t_orc := [] |} in
-      wf_term (t_term t) = true /\ tkf t = 0 /\ text_proved (t_term t) = true /\ tspec_ok t (tmodel_obs t) = true).
+  /\ (let t := {| t_term := Lit [10; 92; 34; 13; 128512; 92; 120] (Some [117; 114; 110; 58; 100]) None; t_orc := [] |} in
+      twf t = true /\ tspec_ok t (tmodel_obs t) = true /\ t_from (tmodel_obs t) = WTerm (t_term t)).
 Proof. vm_compute. repeat split; reflexivity. Qed.
